@@ -325,7 +325,7 @@ parse_pop(cache_page *vtp, uint8_t *raw, int packet)
 
 	case 3 ... 4:
 		if (designation & 1) {
-			int index = (packet - 1) * 26;
+			int index = (packet - 1) * 24;
 
 			for (index += 2, i = 1; i < 13; index += 2, i++)
 				if (triplet[i] >= 0) {
